@@ -415,7 +415,7 @@ func run(id string, sc scen) runner.Result {
 			if !recovered {
 				break
 			}
-			if g.Has("drpcstream.(*Stream).Cancel") && g.Has("drpcmanager.(*Manager).manageStream") && strings.HasPrefix(g.State, "sync.Mutex.Lock") && !sc.soft {
+			if g.Has("drpcstream.(*Stream).Cancel") && g.Has("drpcmanager.(*Manager).manageStream") && strings.HasPrefix(g.State, "sync.Mutex.Lock") && !sc.soft && terminalWaitsForWriteLock(snap) {
 				key = "cancel:manager-cancel-blocked-behind-terminal-call-waiting-for-stuck-write soft=false"
 			}
 			if g.Has("drpcstream.(*Stream).SendCancel") && g.Has("drpcmanager.(*Manager).manageStream") && g.Has("simnet.(*End).Write") && sc.soft {
@@ -508,6 +508,22 @@ func finishRace(id string, soft bool, where string) runner.Result {
 	res := runner.Hold(id, desc, reached)
 	res.Events = 2
 	return res
+}
+
+// terminalWaitsForWriteLock: some Close/CloseSend/SendError is queued on a lock (the write lock,
+// which it waits for while holding the state lock) and some other call is inside the transport's Write.
+func terminalWaitsForWriteLock(snap []census.G) bool {
+	queued, writing := false, false
+	for _, g := range snap {
+		terminal := g.Has("drpcstream.(*Stream).Close") || g.Has("drpcstream.(*Stream).CloseSend") || g.Has("drpcstream.(*Stream).SendError")
+		if terminal && strings.HasPrefix(g.State, "sync.Mutex.Lock") {
+			queued = true
+		}
+		if g.Has("simnet.(*End).Write") && !(terminal && strings.HasPrefix(g.State, "sync.Mutex.Lock")) {
+			writing = true
+		}
+	}
+	return queued && writing
 }
 
 func keyOf(sc scen, first string) string {
